@@ -1163,7 +1163,23 @@ class Model:
             inside = {id(n) for n in ast.walk(site_stmt)} if not isinstance(site_stmt, (ast.If, ast.For)) else \
                 {id(n) for n in ast.walk(site_stmt.test if isinstance(site_stmt, ast.If) else site_stmt.iter)}
             own_targets = {n.id for t in getattr(site_stmt, 'targets', []) for n in ast.walk(t) if isinstance(n, ast.Name)}
+            in_loop = any(isinstance(a, (ast.For, ast.AsyncFor, ast.While)) for a in ancestors(site_stmt))
+
+            def bound_by_enclosing_loop(n):
+                # a read of a loop variable inside its own loop / comprehension: re-bound before it is read, whatever happened earlier
+                for a in ancestors(n):
+                    if isinstance(a, (ast.For, ast.AsyncFor)) and any(isinstance(x, ast.Name) and x.id == n.id for x in ast.walk(a.target)) \
+                            and not any(x is n for x in ast.walk(a.iter)):
+                        return True
+                    if isinstance(a, (ast.ListComp, ast.SetComp, ast.DictComp, ast.GeneratorExp)) and \
+                            any(isinstance(x, ast.Name) and x.id == n.id for g in a.generators for x in ast.walk(g.target)):
+                        return True
+                    if isinstance(a, FUNC_TYPES):
+                        break
+                return False
             if any(isinstance(n, ast.Name) and n.id in hlocals and n.id not in own_targets and isinstance(n.ctx, ast.Load) and id(n) not in inside
+                   and not bound_by_enclosing_loop(n)
+                   and (in_loop or getattr(n, 'lineno', 10**9) > getattr(site_stmt, 'end_lineno', 0))       # read after the call (or the call is repeated)
                    for n in walk_local(fi.node)) and not os.environ.get('VERIF_NO_HYGIENE'):
                 continue
             rets = [n for n in walk_local(h.node) if isinstance(n, ast.Return)]
